@@ -15,7 +15,7 @@ LEVEL_NOTE = ("ASSUMED: is_ip(text) iff text is a canonical dotted quad, and par
 DESIGN_REF = "DESIGN.md 6 (C10)"
 TECHNIQUE = "contract-based deductive verification of the free-text searchers (pyvc, z3 regular-language inclusions) + bounded run-time contracts for URL nodes"
 FUNCTIONS = ["multidecoder.decoders.network.is_domain", "multidecoder.decoders.network.find_domains", "multidecoder.decoders.network.find_emails", "multidecoder.decoders.network.find_ips",
-             "multidecoder.decoders.network.is_url", "multidecoder.decoders.network.find_urls"]
+             "multidecoder.decoders.network.is_url", "multidecoder.decoders.network.find_urls", "multidecoder.decoders.network.parse_ip"]
 RULE = "evaluations = network.* nodes checked; distinct = distinct (node type, parent type) pairs met plus distinct URLs compared"
 EXPLANATION = "bounded stand-in"
 BOUNDED = [NO.bounded_indicator_nodes, NO.bounded_url_parts]
